@@ -113,7 +113,10 @@ PushData(V, cnt, d) == IF cnt = 0 THEN V ELSE PushData(DoPushBack(V, ReadData(V,
 
 InsertN(V, pos, cnt, d) ==
   LET total == V.size + cnt IN
-  IF pos = V.size
+  IF cnt # 0 /\ V.size # 0 /\ d.alias                      \* theData is one of our own elements (repair 62035e7):
+  THEN [mem |-> SubSeq(V.mem, 1, pos) \o Rep(cnt, ReadData(V, d)) \o SubSeq(V.mem, pos + 1, V.size),   \* the result is built in a
+        size |-> total, alloc |-> total, uaf |-> V.uaf]                                                 \* temporary of the total size
+  ELSE IF pos = V.size
   THEN LET V1 == IF total > V.alloc                        \* ensureCapacity first, theData read afterwards
                  THEN [DoReserve(V, total) EXCEPT !.uaf = V.uaf \/ (d.alias /\ cnt > 0)] ELSE V
            x == ReadData(V, d)                              \* (the stale value, when the block has moved)
@@ -139,6 +142,10 @@ EraseRange(V, f, l) ==
 (* ---- resize(theSize, theValue) *)
 Resize(V, n, d) ==
   IF V.size > n THEN ShrinkTo(V, n)
+  ELSE IF V.size < n /\ n > V.alloc /\ V.size # 0 /\ d.alias      \* theValue is an own element and the block must move
+  THEN LET x == ReadData(V, d)                                    \* (repair d40be26): a copy with the new allocation is
+           T == CopyVec(V, n)                                     \* filled while the element is still in place, then swapped
+       IN [T EXCEPT !.mem = SubSeq(@, 1, V.size) \o Rep(n - V.size, x) \o SubSeq(@, n + 1, Len(@)), !.size = n]
   ELSE IF V.size < n
   THEN LET V1 == IF n > V.alloc THEN [DoReserve(V, n) EXCEPT !.uaf = V.uaf \/ d.alias] ELSE V     \* reserve(theSize) up-front
            x == ReadData(V, d)
@@ -189,20 +196,23 @@ WellFormed(V) ==
   /\ Len(V.mem) = V.alloc /\ V.size <= V.alloc
   /\ \A c \in 1..V.alloc : (V.mem[c] = RAW) = (c > V.size)
 
-(* ---- known deviations of the algorithm (keys of known_findings: property C20) ----------------- *)
-(* vector-insert-value-aliases-element: insert(pos, n, v[i]) / insert(pos, v[i]) reads theData after *)
-(* it has moved the elements (no reallocation, i at or after pos + n) or after it has freed the block  *)
-(* (append position with reallocation).  std::vector must copy such an argument first.                *)
-KD_InsertAlias(V, pos, cnt, i) ==
+(* ---- repaired paths --------------------------------------------------------------------------- *)
+(* Until the fix: commits 62035e7 / d40be26 these calls deviated from std::vector (known_findings keys *)
+(* vector-insert-value-aliases-element, vector-resize-value-aliases-element, now "fixed"): theData was   *)
+(* read after the elements had been shifted or after the old block had been freed.  The predicate only  *)
+(* marks the transitions that run through the repaired code, so that all of them are replayed on the     *)
+(* real class; the refinement has no exclusions.                                                         *)
+(* (the inputs on which the unrepaired code deviated: in-place insertion with i at or after pos + n and *)
+(* a different value there, appending with reallocation, resize with reallocation)                      *)
+RP_InsertAlias(V, pos, cnt, i) ==
   LET total == V.size + cnt IN
   /\ cnt > 0
   /\ \/ pos = V.size /\ total > V.alloc
      \/ pos < V.size /\ total <= V.alloc /\ V.size - pos > cnt /\ i >= pos + cnt /\ V.mem[i + 1] # V.mem[i + 1 - cnt]
-(* vector-resize-value-aliases-element: resize(n, v[i]) reserves (moves the block) before reading v[i] *)
-KD_ResizeAlias(V, n) == n > V.size /\ n > V.alloc
+RP_ResizeAlias(V, n) == n > V.size /\ n > V.alloc
 
-KnownDeviation(V, op) ==
-  CASE op.op = "insertSelf" -> KD_InsertAlias(V, op.pos, op.n, op.i)
-    [] op.op = "resizeSelf" -> KD_ResizeAlias(V, op.n)
+RepairedPath(V, op) ==
+  CASE op.op = "insertSelf" -> RP_InsertAlias(V, op.pos, op.n, op.i)
+    [] op.op = "resizeSelf" -> RP_ResizeAlias(V, op.n)
     [] OTHER -> FALSE
 =============================================================================
